@@ -257,3 +257,35 @@ def as_rel(R):
         x, y = z3.Const('x!ar', H), z3.Const('y!ar', H)
         return z3.Lambda([x, y], R[x, y])
     return R
+
+
+def FA(vs, body, pats=()):
+    """ForAll with the given e-matching patterns, keeping only patterns that are still
+    select / uninterpreted applications after simplification (a select over a lambda
+    beta-reduces to a Boolean combination, which is not a legal pattern)"""
+    good = []
+    for p_ in pats:
+        try:
+            q = z3.simplify(p_)
+        except Exception:
+            continue
+        if z3.is_app(q) and q.decl().kind() in (z3.Z3_OP_SELECT, z3.Z3_OP_UNINTERPRETED) and not z3.is_const(q) \
+                and not _has_binder(p_):
+            good.append(p_)
+    if good:
+        return z3.ForAll(vs, body, patterns=good)
+    return z3.ForAll(vs, body)
+
+
+def _has_binder(t, seen=None):
+    seen = set() if seen is None else seen
+    if t.get_id() in seen:
+        return False
+    seen.add(t.get_id())
+    if z3.is_quantifier(t):
+        return True
+    if z3.is_app(t):
+        if t.decl().kind() == z3.Z3_OP_ITE:
+            return True
+        return any(_has_binder(c, seen) for c in t.children())
+    return False
